@@ -18,4 +18,11 @@ PROPS = {
     },
 }
 
+PROPS["C18"] = {
+    "level_text": "Bit-exact Gallina transcription of distance.go (float32 via SpecFloat) with theorems for all vectors of any dimension, tied to the code by differential runs over magnitudes 1e-6..1e6, dims 1..512; the float-tolerance forms of the real-number laws (triangle, l2sq=l2^2, cosine=1-cos) are evaluated on the implementation's outputs as the search arm.",
+    "level_note": "Trusted: Coq kernel, extraction, harness, float32=SpecFloat(24,128), math.Sqrt correctly rounded. Float error-propagation bounds linking the real-number laws to float32 are not machine-checked (partial).",
+    "correspondence": "distance.go ~ Model.Distance",
+    "assumptions": ["amd64 without FMA contraction", "float32(math.Sqrt(float64(x))) = SFsqrt at precision 24"],
+}
+
 NOT_YET = {}
